@@ -1,0 +1,125 @@
+//! Verification hooks (compiled only with the `verif-hooks` feature).
+//!
+//! Plain data types and a thread-local append-only log that records what the trainer hands to
+//! and receives from the learner. Nothing here changes the behaviour of the library.
+
+use std::cell::RefCell;
+
+/// A decoded boundary or tag feature.
+#[derive(Clone, Debug, PartialEq, Eq, Hash, PartialOrd, Ord)]
+pub enum Feature {
+    /// Character n-gram with its relative position.
+    CharNgram {
+        /// N-gram.
+        ngram: String,
+        /// Relative position.
+        rel: isize,
+    },
+    /// Character type n-gram with its relative position.
+    TypeNgram {
+        /// N-gram.
+        ngram: Vec<u8>,
+        /// Relative position.
+        rel: isize,
+    },
+    /// Dictionary word feature. `side`: 0 = left, 1 = inside, 2 = right.
+    Dict {
+        /// Length bucket.
+        length: usize,
+        /// Side.
+        side: u8,
+    },
+}
+
+/// Log of one boundary training run.
+#[derive(Clone, Debug, Default)]
+pub struct BoundaryTrainLog {
+    /// Quantised bias.
+    pub bias: i32,
+    /// Labels reported by the learner.
+    pub labels: Vec<i32>,
+    /// Quantised weight of every feature (including zeros).
+    pub weights: Vec<(Feature, i32)>,
+}
+
+/// Log of one (token, category) tag training run.
+#[derive(Clone, Debug, Default)]
+pub struct TagTrainLog {
+    /// Token.
+    pub token: String,
+    /// Category index.
+    pub category: usize,
+    /// Class id -> tag.
+    pub classes: Vec<String>,
+    /// Offset of this category in the score vector.
+    pub class_offset: usize,
+    /// Quantised bias per class id.
+    pub biases: Vec<(usize, i32)>,
+    /// Quantised weight per (feature, class id) (including zeros).
+    pub weights: Vec<(Feature, usize, i32)>,
+}
+
+thread_local! {
+    static BOUNDARY: RefCell<Option<BoundaryTrainLog>> = const { RefCell::new(None) };
+    static TAGS: RefCell<Vec<TagTrainLog>> = const { RefCell::new(Vec::new()) };
+}
+
+pub(crate) fn boundary_begin(bias: i32, labels: &[i32]) {
+    BOUNDARY.with(|b| {
+        b.borrow_mut().replace(BoundaryTrainLog {
+            bias,
+            labels: labels.to_vec(),
+            weights: vec![],
+        });
+    });
+}
+
+pub(crate) fn boundary_weight(feature: Feature, weight: i32) {
+    BOUNDARY.with(|b| {
+        if let Some(log) = b.borrow_mut().as_mut() {
+            log.weights.push((feature, weight));
+        }
+    });
+}
+
+pub(crate) fn tag_begin(token: &str, category: usize, classes: &[String], class_offset: usize) {
+    TAGS.with(|t| {
+        t.borrow_mut().push(TagTrainLog {
+            token: token.to_string(),
+            category,
+            classes: classes.to_vec(),
+            class_offset,
+            biases: vec![],
+            weights: vec![],
+        });
+    });
+}
+
+pub(crate) fn tag_bias(class: usize, bias: i32) {
+    TAGS.with(|t| {
+        if let Some(log) = t.borrow_mut().last_mut() {
+            log.biases.push((class, bias));
+        }
+    });
+}
+
+pub(crate) fn tag_weight(feature: Feature, class: usize, weight: i32) {
+    TAGS.with(|t| {
+        if let Some(log) = t.borrow_mut().last_mut() {
+            log.weights.push((feature, class, weight));
+        }
+    });
+}
+
+/// Takes the log of the last boundary training run of this thread.
+pub fn take_boundary_log() -> Option<BoundaryTrainLog> {
+    BOUNDARY.with(|b| b.borrow_mut().take())
+}
+
+/// Takes the logs of the tag training runs of this thread.
+pub fn take_tag_logs() -> Vec<TagTrainLog> {
+    TAGS.with(|t| core::mem::take(&mut *t.borrow_mut()))
+}
+
+/// Training example: features with counts, and the label handed to the learner.
+pub type Example = (Vec<(Feature, f64)>, f64);
